@@ -8,8 +8,10 @@ import (
 	"encoding/hex"
 	"fmt"
 	"hash/fnv"
+	"io"
 	"sync"
 	"sync/atomic"
+	"testing/iotest"
 
 	"github.com/datastax/go-cassandra-native-protocol/frame"
 	"github.com/datastax/go-cassandra-native-protocol/message"
@@ -151,6 +153,32 @@ func main() {
 						keys = map[string]string{"kind": "lz4-corrupt-block", "cause": cause}
 					}
 					c.Violation(keys, fmt.Sprintf("%s (%s, compressed=%v): decoded frame differs at %s\n sent: %s\n got:  %s", cs.Name, comp, cf, d, gen.Describe(orig.Body.Message), gen.Describe(got.Body.Message)), replay(cs, comp, cf, wire))
+					continue
+				}
+				// the same bytes as they arrive in practice: twice in a row on one stream held by a *bytes.Buffer (the
+				// compressors special-case that source type), and from a connection that returns short reads
+				if cf || atomic.LoadInt64(&evals)%4 == 0 {
+					stream := bytes.NewBuffer(append(append([]byte{}, wire...), wire...))
+					for k, src := range []io.Reader{stream, stream, iotest.HalfReader(bytes.NewReader(wire))} {
+						how := [...]string{"first of two frames on a bytes.Buffer", "second of two frames on a bytes.Buffer", "a reader returning short reads"}[k]
+						var g2 *frame.Frame
+						var e2 error
+						if pv, site := vlib.Catch(func() { g2, e2 = codec.DecodeFrame(src) }); pv != nil {
+							keys["kind"], keys["site"] = "decode-panic", site
+							c.Violation(keys, fmt.Sprintf("%s: DecodeFrame panics (%s): %v", cs.Name, how, pv), replay(cs, comp, cf, wire))
+							break
+						}
+						if e2 != nil {
+							keys["kind"], keys["error"], keys["source"] = "decode-error", fcheck.ErrClass(e2), how
+							c.Violation(keys, fmt.Sprintf("%s (%s, compressed=%v): decodes alone from a bytes.Reader, but not as %s: %v", cs.Name, comp, cf, how, e2), replay(cs, comp, cf, wire))
+							break
+						}
+						if d := gen.Equal(orig, g2, fcheck.Ignore); d != "" {
+							keys["kind"], keys["diff"], keys["msg"], keys["source"] = "mismatch", fcheck.DiffClass(d), fcheck.Kind(cs.Name), how
+							c.Violation(keys, fmt.Sprintf("%s (%s, compressed=%v): decoded as %s the frame differs at %s", cs.Name, comp, cf, how, d), replay(cs, comp, cf, wire))
+							break
+						}
+					}
 				}
 			}
 		}
